@@ -118,10 +118,14 @@ func genProxy(rnd *rand.Rand, t string, class string) v1.ProxyConfigurer {
 	}
 	if pick() {
 		b.Transport.BandwidthLimit, _ = types.NewBandwidthQuantity([]string{"1MB", "512KB", "10MB"}[rnd.Intn(3)])
+	}
+	if pick() {
 		b.Transport.BandwidthLimitMode = []string{"client", "server"}[rnd.Intn(2)]
 	}
 	if pick() {
 		b.LoadBalancer.Group = "grp"
+	}
+	if pick() {
 		b.LoadBalancer.GroupKey = "gkey"
 	}
 	if pick() {
@@ -148,8 +152,12 @@ func genProxy(rnd *rand.Rand, t string, class string) v1.ProxyConfigurer {
 		if class == "emptycontainers" {
 			x.Locations = []string{}
 		}
+		// every field on its own: a password without a user (and the reverse) is a valid definition the server honours
 		if pick() {
-			x.HTTPUser, x.HTTPPassword = "user", "pässword"
+			x.HTTPUser = "user"
+		}
+		if pick() {
+			x.HTTPPassword = "pässword"
 		}
 		if pick() {
 			x.HostHeaderRewrite = "rewritten.local"
@@ -169,7 +177,10 @@ func genProxy(rnd *rand.Rand, t string, class string) v1.ProxyConfigurer {
 		x.CustomDomains = doms[rnd.Intn(len(doms))]
 		x.Multiplexer = "httpconnect"
 		if pick() {
-			x.HTTPUser, x.HTTPPassword = "user", "pw"
+			x.HTTPUser = "user"
+		}
+		if pick() {
+			x.HTTPPassword = "pw"
 		}
 		if pick() {
 			x.RouteByHTTPUser = "bob"
